@@ -151,6 +151,11 @@ class C08(Prop):
             t mv,o5,o2\nt mv,o4,o2\nt mv,o6,o3\nt mv,o7,o3\nt pr,o2,o6\nt pr,o2,o5\nt pr,o3,o4\nt pr,o2,o9\n""" + tail)
         mk("present-id-destructs", """script o4 id de,o5\nscript o4 id de,o4\nscript o6 id de,o2\nt ld,b0\nt cl,b0\nt cl,b0\nt cl,b0\nt cl,b0
             t mv,o3,o2\nt mv,o5,o2\nt mv,o4,o2\nt mv,o6,o2\nt pr,o2,o3\nsnap\nt pr,o2,o3\nt pr,o2,o3\nt pr,o2,o3\n""" + tail)
+        # driver-initiated calls: the backend tick
+        mk("heart-beat-last-object-destructs-itself", "script o3 hbeat de,o3\nt ld,b0\nt cl,b0\nt hbe,o2\nt hbe,o3\nprobe\ntick\nsnap\nprobe\ntick\n" + tail)
+        mk("heart-beat-earlier-object-destructs-the-last", "script o2 hbeat de,o4\nt ld,b0\nt cl,b0\nt cl,b0\nt hbe,o2\nt hbe,o3\nt hbe,o4\ntick\nsnap\nprobe\ntick\n" + tail)
+        mk("heart-beat-variants", """script o2 hbeat mv,o2,o3;de,o3\nscript o4 hbeat hbd,o5;hbe,o6\nscript o5 hbeat err\nscript o6 hbeat cl,b0\nscript o4 hbeat de,o2;de,o4
+            t ld,b0\nt cl,b0\nt cl,b0\nt cl,b0\nt cl,b0\nt hbe,o2\nt hbe,o4\nt hbe,o5\ntick\nsnap\nprobe\ntick\nt hbe,o5\ntick\ngc\ntick\n""" + tail)
         mk("references-read-zero", """t ld,b0\nt cl,b0\nt kp,o3\nt rd\nscript o3 create kp,o2;rd\nt de,o3\nt rd\nt kp,o3\nt mv,o3,o2\nt mv,o2,o3\nt ec,o3\nt ln,o3,x\nt de,o3\ngc\nt rd\n""" + tail)
         mk("reload-after-destruct", "t ld,b0\nt cl,b0\nt de,o2\nt fo,b0\nt ld,b0\nt fo,b0\nt cl,b0\nt fo,b0#1\nt fo,b0#2\ngc\nt de,o4\nt ld,b0\n" + tail)
         mk("find-moves-to-front", "t ld,b0\nt ld,b1\nt ld,b2\nt ld,b3\nt ld,b4\nt ld,b5\nt ld,b6\nt ld,b7\nsnap\nt fo,b0\nt fo,b3\nt fo,b5\nsnap\nt de,o4\nt de,o9\n" + tail)
@@ -163,9 +168,9 @@ class C08(Prop):
         return B
 
     OPS = [("ld", 9), ("cl", 14), ("mv", 28), ("de", 9), ("ec", 14), ("dc", 2), ("ln", 4), ("fo", 5), ("fl", 3),
-           ("kp", 3), ("rd", 2), ("err", 1), ("aa", 9), ("cmd", 8), ("mvs", 10), ("fis", 3), ("pr", 6)]
+           ("kp", 3), ("rd", 2), ("err", 1), ("aa", 9), ("cmd", 8), ("mvs", 10), ("fis", 3), ("pr", 6), ("hbe", 7), ("hbd", 2)]
     HOPS = [("ld", 5), ("cl", 8), ("mv", 24), ("de", 14), ("ec", 5), ("dc", 1), ("ln", 2), ("fo", 2), ("fl", 1),
-            ("kp", 2), ("rd", 2), ("err", 2), ("mvarg", 6), ("nop", 2), ("aa", 10), ("cmd", 3), ("mvs", 6), ("fis", 2), ("pr", 2)]
+            ("kp", 2), ("rd", 2), ("err", 2), ("mvarg", 6), ("nop", 2), ("aa", 10), ("cmd", 3), ("mvs", 6), ("fis", 2), ("pr", 2), ("hbe", 2), ("hbd", 2)]
 
     def gen_op(self, rng, st, table, self_id=None):
         k = rng.weighted(table)
@@ -204,7 +209,7 @@ class C08(Prop):
             return "pr,%s,%s" % (oid(), oid())
         if k == "fis":
             return "fis,%s" % rng.weighted([("b%d" % rng.below(st["nbp"]), 6), ("b%d" % (st["nbp"] + rng.below(40)), 6), ("nx", 1)])
-        if k in ("de", "ec", "dc", "kp"):
+        if k in ("de", "ec", "dc", "kp", "hbe", "hbd"):
             return "%s,%s" % (k, oid())
         if k == "aa":
             return "aa,%s,%s" % (oid(), rng.choice(["va", "vb", "vc"]))
@@ -250,7 +255,7 @@ class C08(Prop):
             # scripts for hooks that may fire during this step
             while nscripts < 14 and rng.chance(2, 5):
                 nscripts += 1
-                hk = rng.weighted([("create", 3), ("init", 6), ("mod", 5), ("act", 3), ("id", 4)])
+                hk = rng.weighted([("create", 3), ("init", 6), ("mod", 5), ("act", 3), ("id", 4), ("hbeat", 6)])
                 if hk == "create":
                     target = st["est"] + 1 + rng.below(2)
                 else:
@@ -279,6 +284,17 @@ class C08(Prop):
                 body.append("t pr,o%d,o%d" % (e, rng.choice(xs)))
                 if rng.chance(1, 2):
                     body.append("t pr,o%d,o%d" % (e, rng.choice(xs)))
+            elif rng.chance(1, 7):
+                # the backend tick: heart_beat() of every enabled object (driver-initiated calls)
+                if rng.chance(1, 3) and st["top"] >= 2:
+                    # the classic: the object enabled last destructs itself / is destructed by an earlier one
+                    x = rng.range(2, st["top"] + 1)
+                    body.append("t hbe,o%d" % x)
+                    who = x if rng.chance(1, 2) else rng.range(2, st["top"] + 1)
+                    st.setdefault("extra_scripts", []).append("script o%d hbeat de,o%d" % (who, x))
+                body.append("tick")
+                if rng.chance(1, 3):
+                    body.append("tick")
             elif rng.chance(1, 12):
                 body.append("gc")
             else:
@@ -305,7 +321,7 @@ class C08(Prop):
 
     def histogram(self, cases, impl):
         h = {"objects_created": 0, "moves_ok": 0, "moves_refused": 0, "destructs": 0, "hooks_create": 0, "hooks_init": 0,
-             "hooks_mod": 0, "hooks_act": 0, "hooks_id": 0, "present_hit": 0, "present_miss": 0, "commands_hit": 0, "commands_miss": 0, "add_actions": 0, "errors": 0, "gone_reads": 0, "snapshots": 0, "probes": 0, "max_population": 0, "scripts": 0}
+             "hooks_mod": 0, "hooks_act": 0, "hooks_id": 0, "hooks_hbeat": 0, "ticks": 0, "present_hit": 0, "present_miss": 0, "commands_hit": 0, "commands_miss": 0, "add_actions": 0, "errors": 0, "gone_reads": 0, "snapshots": 0, "probes": 0, "max_population": 0, "scripts": 0}
         for c in cases:
             pop = 0
             for l in impl.get(c.id, []):
